@@ -209,6 +209,11 @@ def body_collection(cname, check=True):
         return (True, "pre-invalid")
     mweb.fresh_world({}, {})
     app = mweb.make_app()
+    # the parent is listed once BEFORE the child exists: what a listing shows is the members at that moment
+    r = mweb.call(app, "PROPFIND", "/user/calendars/", headers=[("Depth", "1")], xml=mweb.propfind_body("{DAV:}resourcetype"),
+                  prefix=prefix, wsgi=wsgi)
+    if r.kind != "multistatus" or len(r.statuses) != 2:
+        return (False, "listed-before")
     r = mweb.call(app, "MKCOL", "/user/calendars/" + cname, prefix=prefix, wsgi=wsgi)
     if r.status_class == "5xx":
         return (False, "mkcol-crashed")
@@ -238,9 +243,27 @@ def body_collection(cname, check=True):
     ok = None not in got and set(got) == want and len(got) == 3
     if not ok:
         return (False, "listed")
+    # the new collection is backed by a store of its own (like the home sets of a default layout): listed while
+    # empty, then a sub-collection is created in it - which does not touch ITS store - and it is listed again
+    made = []
+    sub = "/user/calendars/" + cname + "/sub"
+    for step in (0, 1):
+        if step == 1:
+            r = mweb.call(app, "MKCOL", sub, prefix=prefix, wsgi=wsgi)
+            if r.status_class == "5xx":
+                return (False, "nested-mkcol-crashed")
+            if r.status_class != "2xx":
+                break
+            made.append(sub)
+        r = mweb.call(app, "PROPFIND", "/user/calendars/" + cname + "/", headers=[("Depth", "1")],
+                      xml=mweb.propfind_body("{DAV:}resourcetype"), prefix=prefix, wsgi=wsgi)
+        if r.kind != "multistatus":
+            return (False, "nested-listing")
+        got = [deref(mweb.emitted_href(s_), prefix) for s_ in r.statuses]
+        if None in got or sorted(x.rstrip("/") for x in got) != sorted(["/user/calendars/" + cname] + made):
+            return (False, "nested-listing")
     # POST add-member to the new collection and to the calendar: the Location, dereferenced as sent, is the
     # member that was created (and nothing else was)
-    made = []
     for target in ("/user/calendars/" + cname + "/", "/user/calendars/cal/"):
         before = _member_names(app, target)
         r = mweb.call(app, "POST", target, body=b"ok", content_type="text/calendar", prefix=prefix, wsgi=wsgi)
@@ -273,6 +296,18 @@ def body_collection(cname, check=True):
             got.append(pi.rstrip("/"))
         if sorted(got) != sorted(["/user/calendars", "/user/calendars/cal", "/user/calendars/" + cname] + made):
             return (False, "deep-listing")
+    # ... and once the collection is deleted again the parent no longer lists it
+    r = mweb.call(app, "DELETE", "/user/calendars/" + cname + "/", prefix=prefix, wsgi=wsgi)
+    if r.status_class == "2xx":
+        r = mweb.call(app, "PROPFIND", "/user/calendars/", headers=[("Depth", "1")], xml=mweb.propfind_body("{DAV:}resourcetype"),
+                      prefix=prefix, wsgi=wsgi)
+        if r.kind != "multistatus":
+            return (False, "listed-after-delete")
+        got = [deref(mweb.emitted_href(s), prefix) for s in r.statuses]
+        if None in got or sorted(x.rstrip("/") for x in got) != ["/user/calendars", "/user/calendars/cal"]:
+            return (False, "listed-after-delete")
+    elif r.status_class == "5xx":
+        return (False, "delete-crashed")
     return (True, "listed")
 
 
